@@ -7,6 +7,7 @@ import FunModel.Drv.C02
 import FunModel.Drv.C14
 import FunModel.Drv.C05
 import FunModel.Drv.C06
+import FunModel.Drv.C03
 
 /-! Line-protocol driver: `driver <property>` reads one S-expression per line on stdin and prints
     the model's observation for it on one line. Core Lean only (no Mathlib) so it links. -/
@@ -23,6 +24,7 @@ def handlerFor : String → Option (Sexp → String)
   | "C06" => some DrvC06.handle
   | "C07" => some DrvC06.handleBoth
   | "C20" => some DrvC06.handleBoth
+  | "C03" => some DrvC03.handle
   | "C17" => some DrvC16.handle
   | _ => none
 
